@@ -10,3 +10,8 @@ import J1939.Props.C08
 #print axioms J1939.Props.C08.c08_history_wf
 #print axioms J1939.Props.C08.c08_thread_never_dies
 #print axioms J1939.Props.C08.c08_rx_change_wakes
+#print axioms J1939.Props.C08.c08_22_rx_keeps_snd_keys
+#print axioms J1939.Props.C08.tickSnd_frame
+#print axioms J1939.Props.C08.tickMpg_frame
+#print axioms J1939.Props.C08.afterRcv_ok
+#print axioms J1939.Props.C08.c08_22_pre_pass_ok
